@@ -15,7 +15,7 @@
 //!                                      `remove` carries `RemoveKind::File` / `Folder` after what is at the path)
 //!   err / drop-rx                      an `Err` event / drop the receiving end of the channel
 //!   pathof f|d <hexid> <hexext>        `FileSystem::path_of` under root 0, then back through `id_of_path`
-//!   note <create|modify|rename|delete|any|access> <root#> f|d <hexid> <hexext> <decor>
+//!   note <create|modify|rename|delete|deleteany|any|access> <root#> f|d <hexid> <hexext> <decor>
 //!                                      scenario: the valid entry (id, ext) under root # is notified;
 //!                                      decor bits spell the path with `.` / `zz/..` detours
 //!   real-roots <n> / real pre|create|modify|delete|rename … / real-start   (see `exec_real`)
@@ -444,7 +444,8 @@ impl Engine for WatchEngine {
                         0..=59 => {
                             let e = rand_entry(rng);
                             let decor = if rng.chance(1, 2) { 0 } else { rng.below(256) };
-                            l.push(note(*rng.pick(NKINDS), rng.below(roots.len()), &e, decor));
+                            let nk = if rng.chance(1, 10) { "deleteany" } else { *rng.pick(NKINDS) };
+                            l.push(note(nk, rng.below(roots.len()), &e, decor));
                         }
                         60..=69 => { let r = *rng.pick(&roots); let p = rand_raw_path(rng, r); l.push(format!("mk {} {p}", if rng.chance(2, 3) { "d" } else { "f" })); l.push(format!("ev {} {p}", rng.pick(KINDS))); }
                         70..=79 => { let np = rng.range(1, 2); let ps: Vec<String> = (0..np).map(|_| { let r = *rng.pick(&roots); rand_raw_path(rng, r) }).collect(); l.push(format!("ev {} {}", rng.pick(KINDS), ps.join(" "))); }
@@ -578,7 +579,9 @@ impl Engine for WatchEngine {
                 }
                 "note" => {
                     let Some(lv) = live.as_mut() else { rec.stat("skipped/no-roots"); continue };
-                    let kind = NKind::parse(w[1]);
+                    // `deleteany`: a deletion reported without the kind of what was deleted (Remove(Any))
+                    let untyped = w[1] == "deleteany";
+                    let kind = if untyped { NKind::Delete } else { NKind::parse(w[1]) };
                     let ri: usize = w[2].parse().expect("root index");
                     if ri >= lv.roots.len() { rec.stat("skipped/bad-root"); continue; }
                     let dir = w[3] == "d";
@@ -603,7 +606,7 @@ impl Engine for WatchEngine {
                         if plain.is_dir() != dir && plain.exists() { rm(&plain); }
                         mk(&plain, dir);
                     }
-                    let k = match kind { NKind::Create => "create", NKind::Modify => "modother", NKind::Rename => "modname", NKind::Delete => "remove", NKind::Any => "any", NKind::Access => "access" };
+                    let k = match kind { NKind::Create => "create", NKind::Modify => "modother", NKind::Rename => "modname", NKind::Delete => if untyped { "removeany" } else { "remove" }, NKind::Any => "any", NKind::Access => "access" };
                     let msgs = lv.feed(k, &[spelled.clone()], dir, rec);
                     rec.stat(format!("note/{}/{}/depth{}{}", w[1], w[3], segs.len(), if decor != 0 { "/detour" } else { "" }));
                     rec.nontrivial = true;
@@ -629,7 +632,9 @@ impl Engine for WatchEngine {
                     }
                     let what = format!("{} of {} under root {ri} (path {:?})", w[1], show_ent(&own), spelled.strip_prefix(&base).unwrap_or(&spelled));
                     let detour_before_last = !segs.is_empty() && decor >> (2 * (segs.len() - 1) + 1) & 1 == 1;
-                    if lv.rx.is_some() { judge(kind, &own, &others, &got, &lenient, detour_before_last, &what, &mut fails); }
+                    // the kind of a deleted directory cannot be known from an untyped removal: only files are judged then
+                    if untyped && dir { rec.stat("note/deleteany/directory(not judged)"); }
+                    else if lv.rx.is_some() { judge(kind, &own, &others, &got, &lenient, detour_before_last, &what, &mut fails); }
                     lv.watcher_check(&what, &mut fails);
                 }
                 "real-roots" | "real" | "real-start" => real.line(&base, &w, rec, &mut fails),
